@@ -156,6 +156,8 @@ def run_c09(ctx):
         if c["kind"] != "valid":
             continue
         cases.append({"id": c["id"], "dom": c["dom"], "prob": c["tree"], "seed": i, "walk": 0})
+    # benchmark-style names (hyphenated words) and numeric goals longer than a short line
+    cases += [gen_problem.long_names_case(rng, 80000 + k) for k in range(40 if quick else 800)]
     cases += _fixture_export_cases(960000)
     tf = ctx.drive("export", cases, hashseeds=hashseeds)
     ctx.validate(tf, {c["id"]: c for c in cases}, driver="export")
